@@ -110,12 +110,18 @@ func (c *Conn) SetDeadline(t time.Time) error {
 func (c *Conn) SetReadDeadline(t time.Time) error {
 	c.mu.Lock()
 	c.rArmed, c.rEpoch = !t.IsZero(), c.epoch
+	if c.rArmed && !t.After(time.Now()) {
+		c.rEpoch = c.epoch - 1 // a deadline that is not in the future has expired already, as on a real socket
+	}
 	c.mu.Unlock()
 	return nil
 }
 func (c *Conn) SetWriteDeadline(t time.Time) error {
 	c.mu.Lock()
 	c.wArmed, c.wEpoch = !t.IsZero(), c.epoch
+	if c.wArmed && !t.After(time.Now()) {
+		c.wEpoch = c.epoch - 1
+	}
 	c.mu.Unlock()
 	return nil
 }
@@ -157,7 +163,7 @@ type Config struct {
 	ReadBuf, WriteBuf int  // 0 = reuse the hijacked bufio buffers (server) / library default (client)
 	BrwRead, BrwWrite int  // sizes of the hijacked bufio.ReadWriter (server, when ReadBuf/WriteBuf are 0)
 	Compression       bool // offer / accept permessage-deflate
-	// HandshakeTimeout of the Dialer (client only); 0 = none
+	// HandshakeTimeout of the Dialer / the Upgrader; 0 = none
 	HandshakeTimeout time.Duration `json:"handshake_timeout,omitempty"`
 }
 
@@ -241,7 +247,7 @@ func upgrade(cfg Config, reqBytes []byte, key string, in io.Reader, out *Sink) (
 		bw = 4096
 	}
 	hw := &hijackWriter{conn: nc, hdr: http.Header{}, brw: bufio.NewReadWriter(bufio.NewReaderSize(nc, br), bufio.NewWriterSize(nc, bw))}
-	up := websocket.Upgrader{ReadBufferSize: cfg.ReadBuf, WriteBufferSize: cfg.WriteBuf, EnableCompression: cfg.Compression,
+	up := websocket.Upgrader{ReadBufferSize: cfg.ReadBuf, WriteBufferSize: cfg.WriteBuf, EnableCompression: cfg.Compression, HandshakeTimeout: cfg.HandshakeTimeout,
 		CheckOrigin: func(*http.Request) bool { return true }}
 	before := out.Len()
 	c, err := up.Upgrade(hw, req, nil)
